@@ -130,6 +130,28 @@ blocks_input_harness!(k_sha1_blocks_input_63_66, 63, 66);
 //@desc as above: no block completed, 30 bytes buffered
 blocks_input_harness!(k_sha1_blocks_input_10_20, 10, 20);
 
+//@unit name=k_sha1_blocks_input_0_127 props=C10,C12 label=S tier=thorough fn=sha1::Blocks::input bound="0 bytes buffered, 127-byte input"
+//@desc as above: one block, 63 bytes buffered
+blocks_input_harness!(k_sha1_blocks_input_0_127, 0, 127);
+//@unit name=k_sha1_blocks_input_0_128 props=C10,C12 label=S tier=thorough fn=sha1::Blocks::input bound="0 bytes buffered, 128-byte input"
+//@desc as above: exactly two blocks
+blocks_input_harness!(k_sha1_blocks_input_0_128, 0, 128);
+//@unit name=k_sha1_blocks_input_0_129 props=C10,C12 label=S tier=thorough fn=sha1::Blocks::input bound="0 bytes buffered, 129-byte input"
+//@desc as above: two blocks, one byte buffered
+blocks_input_harness!(k_sha1_blocks_input_0_129, 0, 129);
+//@unit name=k_sha1_blocks_input_31_33 props=C10,C12 label=S tier=thorough fn=sha1::Blocks::input bound="31 bytes buffered, 33-byte input"
+//@desc as above: 31 + 33 bytes complete exactly one block
+blocks_input_harness!(k_sha1_blocks_input_31_33, 31, 33);
+//@unit name=k_sha1_blocks_input_62_2 props=C10,C12 label=S tier=thorough fn=sha1::Blocks::input bound="62 bytes buffered, 2-byte input"
+//@desc as above: 62 + 2 bytes complete exactly one block
+blocks_input_harness!(k_sha1_blocks_input_62_2, 62, 2);
+//@unit name=k_sha1_blocks_input_62_3 props=C10,C12 label=S tier=thorough fn=sha1::Blocks::input bound="62 bytes buffered, 3-byte input"
+//@desc as above: one block, one byte buffered
+blocks_input_harness!(k_sha1_blocks_input_62_3, 62, 3);
+//@unit name=k_sha1_blocks_input_5_59 props=C10,C12 label=S tier=thorough fn=sha1::Blocks::input bound="5 bytes buffered, 59-byte input"
+//@desc as above: 5 + 59 bytes complete exactly one block
+blocks_input_harness!(k_sha1_blocks_input_5_59, 5, 59);
+
 // ---------------- FIPS 180-4 SHA-1 compression function, textbook form (independent of the 4-lane code) ----------------
 fn spec_f(t: usize, b: u32, c: u32, d: u32) -> u32 {
     if t < 20 { (b & c) | (!b & d) } else if t < 40 { b ^ c ^ d } else if t < 60 { (b & c) | (b & d) | (c & d) } else { b ^ c ^ d }
